@@ -334,6 +334,9 @@ func (e *Engine) exploreHarness(fn *ssa.Function, workers int, maxPaths int) *Ha
 				}
 				mu.Unlock()
 				res, alts := e.runPath(sol, fn, p)
+				if os.Getenv("GOSYM_DEBUG") != "" {
+					fmt.Fprintf(os.Stderr, "DEBUG path prefix=%s decs=%s outcome=%s %s steps=%d alts=%d\n", decString(p), decString(res.Decisions), res.Outcome, res.Detail, res.Steps, len(alts))
+				}
 				mu.Lock()
 				active--
 				work = append(work, alts...)
